@@ -246,14 +246,16 @@ func (w *walker) nearest(from string) (route []hop, target string, stim string, 
 
 // WalkState is what survives a restart of the walker process (see MaxGoroutines).
 type WalkState struct {
-	Covered   []int           `json:"covered"`
-	Tries     map[string]int  `json:"tries"`
-	Bad       map[string]bool `json:"bad"`
-	Rep       *WalkReport     `json:"rep"`
-	InitIdx   int             `json:"init_idx"`
-	WalksDone int             `json:"walks_done"`
-	Restarts  int             `json:"restarts"`
-	Done      bool            `json:"done"`
+	Covered      []int           `json:"covered"`
+	Tries        map[string]int  `json:"tries"`
+	Bad          map[string]bool `json:"bad"`
+	Rep          *WalkReport     `json:"rep"`
+	InitIdx      int             `json:"init_idx"`
+	WalksDone    int             `json:"walks_done"`
+	Restarts     int             `json:"restarts"`
+	TourDone     bool            `json:"tour_done"`
+	Tour2Started bool            `json:"tour2_started"`
+	Done         bool            `json:"done"`
 
 	canRestart bool
 }
@@ -315,63 +317,72 @@ func WalkResume(name string, sut SUT, lts *LTS, seed int64, walks, depth, maxMis
 		inits = append(inits, k)
 	}
 	sort.Strings(inits)
-	for ii, init := range inits {
-		if ii < st.InitIdx {
-			continue
-		}
-		st.InitIdx = ii
-		w.reset(init)
-		for guard := 0; guard < 50_000_000; guard++ {
-			if len(w.path) == 1 && giveUp() {
-				save()
-				return
-			}
-			route, _, stim, ok := w.nearest(w.cur)
-			if !ok {
-				if w.cur == init && len(w.path) == 1 {
-					break
-				}
-				// nothing reachable from here; from a fresh object?
-				if _, _, _, ok2 := w.nearest(init); !ok2 {
-					break
-				}
-				w.reset(init)
+	// tour: exercise every stimulus group that can be reached; false = asked to be continued in a fresh process
+	tour := func() bool {
+		for ii, init := range inits {
+			if ii < st.InitIdx {
 				continue
 			}
-			alive := true
-			diverted := false
-			for _, h := range route {
-				if !w.step(h.stim) {
-					alive = false
-					break
+			st.InitIdx = ii
+			w.reset(init)
+			for guard := 0; guard < 50_000_000; guard++ {
+				if len(w.path) == 1 && giveUp() {
+					save()
+					return false
 				}
-				if w.cur != h.to {
-					// a nondeterministic step took another branch: plan again from here (and stop relying
-					// on that branch if it keeps happening)
-					w.diverted[h.from+"|"+h.stim+"|"+h.to]++
-					diverted = true
-					break
+				route, _, stim, ok := w.nearest(w.cur)
+				if !ok {
+					if w.cur == init && len(w.path) == 1 {
+						break
+					}
+					// nothing reachable from here; from a fresh object?
+					if _, _, _, ok2 := w.nearest(init); !ok2 {
+						break
+					}
+					w.reset(init)
+					continue
+				}
+				alive := true
+				diverted := false
+				for _, h := range route {
+					if !w.step(h.stim) {
+						alive = false
+						break
+					}
+					if w.cur != h.to {
+						// a nondeterministic step took another branch: plan again from here (and stop relying
+						// on that branch if it keeps happening)
+						w.diverted[h.from+"|"+h.stim+"|"+h.to]++
+						diverted = true
+						break
+					}
+				}
+				if alive && !diverted {
+					if _, ok := w.lts.Group[w.cur][stim]; ok {
+						alive = w.step(stim)
+					}
+				}
+				if !alive {
+					w.reset(init)
 				}
 			}
-			if alive && !diverted {
-				if _, ok := w.lts.Group[w.cur][stim]; ok {
-					alive = w.step(stim)
+			if len(rep.Samples) < 3 && len(w.path) > 1 {
+				p := w.path
+				if len(p) > 12 {
+					p = p[:12]
 				}
-			}
-			if !alive {
-				w.reset(init)
+				rep.Samples = append(rep.Samples, append([]Ev(nil), p...))
 			}
 		}
-		if len(rep.Samples) < 3 && len(w.path) > 1 {
-			p := w.path
-			if len(p) > 12 {
-				p = p[:12]
-			}
-			rep.Samples = append(rep.Samples, append([]Ev(nil), p...))
+		return true
+	}
+	if !st.TourDone {
+		if !tour() {
+			return
 		}
+		st.TourDone = true
 	}
 	// random walks (deeper mixes of the same edges)
-	st.InitIdx = len(inits)
 	for i := st.WalksDone; i < walks && len(inits) > 0; i++ {
 		if giveUp() {
 			save()
@@ -400,6 +411,14 @@ func WalkResume(name string, sut SUT, lts *LTS, seed int64, walks, depth, maxMis
 				break
 			}
 		}
+	}
+	// second tour: outcomes of nondeterministic groups first seen during the random walks may have opened new states
+	if !st.Tour2Started {
+		st.Tour2Started = true
+		st.InitIdx = 0
+	}
+	if !tour() {
+		return
 	}
 	rep.GroupsCovered = 0
 	st.Done = true
